@@ -30,6 +30,16 @@ var FaultNames = map[FaultKind]string{FaultNone: "none", FaultOnce: "err-once", 
 
 var ErrInjected = errors.New("verif: injected write failure")
 
+// ErrInjectedTemporary is a failure of the retryable kind (a deadline, EAGAIN): Timeout() and Temporary()
+// report true, as os.ErrDeadlineExceeded and net timeouts do. It is a failed write all the same.
+var ErrInjectedTemporary error = temporaryError{}
+
+type temporaryError struct{}
+
+func (temporaryError) Error() string   { return "verif: injected write failure (i/o timeout)" }
+func (temporaryError) Timeout() bool   { return true }
+func (temporaryError) Temporary() bool { return true }
+
 // CountingWriter records every Write call and can inject one fault.
 type CountingWriter struct {
 	Buf    bytes.Buffer
@@ -40,6 +50,8 @@ type CountingWriter struct {
 	K      int // 1-based index of the faulty call
 	Fired  bool
 	Missed int // bytes that did not reach the buffer
+	// TempErr: the injected error is ErrInjectedTemporary instead of ErrInjected
+	TempErr bool
 	// GCEvery > 0: run a garbage collection on every GCEvery-th Write (an encoder that only
 	// remembers ADDRESSES of temporaries is exposed when the collector recycles them mid-encode)
 	GCEvery int
@@ -52,6 +64,27 @@ func (w *CountingWriter) Reset() {
 	w.Fired = false
 	w.Missed = 0
 }
+
+func (w *CountingWriter) injected() error {
+	if w.TempErr {
+		return ErrInjectedTemporary
+	}
+	return ErrInjected
+}
+
+// RichWriter is a CountingWriter that also offers WriteByte and WriteString, as *bufio.Writer and
+// *bytes.Buffer do; each is one counted (and faultable) write call.
+type RichWriter struct{ *CountingWriter }
+
+func (w RichWriter) WriteByte(c byte) error {
+	n, err := w.CountingWriter.Write([]byte{c})
+	if err == nil && n != 1 {
+		err = io.ErrShortWrite
+	}
+	return err
+}
+
+func (w RichWriter) WriteString(s string) (int, error) { return w.CountingWriter.Write([]byte(s)) }
 
 func (w *CountingWriter) Write(p []byte) (int, error) {
 	w.Calls++
@@ -67,17 +100,17 @@ func (w *CountingWriter) Write(p []byte) (int, error) {
 			if w.Calls == w.K {
 				w.Fired = true
 				w.Missed += len(p)
-				return 0, ErrInjected
+				return 0, w.injected()
 			}
 		case FaultFrom:
 			w.Fired = true
 			w.Missed += len(p)
-			return 0, ErrInjected
+			return 0, w.injected()
 		case FaultFullErrOnce, FaultFullErrFrom:
 			if w.Calls == w.K || w.Kind == FaultFullErrFrom {
 				w.Fired = true
 				w.Buf.Write(p)
-				return len(p), ErrInjected
+				return len(p), w.injected()
 			}
 		case FaultShortErr, FaultShortNil:
 			if w.Calls == w.K {
